@@ -2001,6 +2001,127 @@ def judge_hierarchy(ctx, case, count=False):
                 ctx.violation(f'{what}: smooth=None but P != T', case)
 
 
+# ---- left / right candidates of nonsymmetric root-node hierarchies (seed C10-11): the restriction of a nonsymmetric problem is
+# R = PH^H with PH the root-node prolongator of A^H built from the LEFT candidates BH; the property is demanded of both
+# (P, B) and (PH, BH) on every level, with user-supplied BH != B and 1..3 candidates per dof block
+LR_SMOOTH = [('energy', {'krylov': 'gmres', 'maxiter': 3, 'degree': 1}), ('energy', {'krylov': 'cgnr', 'maxiter': 2, 'degree': 1}),
+             ('energy', {'krylov': 'gmres', 'maxiter': 2, 'degree': 2, 'weighting': 'diagonal'}),
+             ('energy', {'krylov': 'cgnr', 'maxiter': 3, 'degree': 2, 'weighting': 'diagonal'}),
+             ('energy', {'krylov': 'gmres', 'maxiter': 2, 'degree': 1, 'postfilter': {'theta': 0.05}}),
+             ('energy', {'krylov': 'gmres', 'maxiter': 1, 'degree': 2, 'postfilter': {'k': 3}}),
+             ('energy', {'krylov': 'gmres', 'maxiter': 4, 'degree': 1, 'weighting': 'block'}), None]
+
+
+def lr_case(ctx, rng, t):
+    from pyamg.gallery import poisson
+    kind = ['convdiff1d', 'convdiff2d', 'random', 'random_bsr', 'complex'][t % 5]
+    bs = 2 if kind == 'random_bsr' else 1
+    cplx = kind == 'complex'
+    if kind in ('convdiff1d', 'complex'):
+        n = int(rng.integers(10, 40))
+        c = float(rng.choice([0.2, 0.5, 0.8]))
+        Ad = poisson((n,), format='csr').toarray() + c * (np.eye(n, k=1) - np.eye(n, k=-1))
+        if cplx:
+            Ad = Ad + 0.25j * np.eye(n, k=1) + 0.1j * np.eye(n, k=-1)
+    elif kind == 'convdiff2d':
+        nx, ny = int(rng.integers(3, 9)), int(rng.integers(3, 9))
+        c = float(rng.choice([0.3, 0.7]))
+        Cx, Cy = np.eye(nx, k=1) - np.eye(nx, k=-1), np.eye(ny, k=1) - np.eye(ny, k=-1)
+        Ad = poisson((nx, ny), format='csr').toarray() + c * np.kron(Cx, np.eye(ny)) + 0.3 * c * np.kron(np.eye(nx), Cy)
+    else:
+        Ad = rand_matrix(rng, int(rng.integers(6, 20)), bs)
+    n = Ad.shape[0]
+    nd = bs + int(rng.choice([0, 1, 1, 2]))
+    def cand():
+        X = rng.standard_normal((n, nd))
+        if cplx:
+            X = X + 1j * rng.standard_normal((n, nd))
+        if rng.random() < 0.5:
+            X[:, 0] = 1.0
+        return X
+    B, BH = cand(), cand()
+    smooth = LR_SMOOTH[int(rng.integers(len(LR_SMOOTH)))]
+    strength = [('symmetric', {'theta': 0.0}), ('symmetric', {'theta': 0.25}), ('classical', {'theta': 0.25})][int(rng.integers(3))]
+    aggregate = ['standard', 'naive'][int(rng.integers(2))]
+    case = {'op': 'hierarchy_lr', 'kind': kind, 'smooth': smooth, 'strength': strength, 'aggregate': aggregate, 'bs': bs,
+            'A': cj(Ad), 'n': n, 'B': cj(B), 'BH': cj(BH), 'nd': nd, 'complex': bool(cplx), 'np_seed': int(rng.integers(2**31)),
+            'max_coarse': int(rng.choice([1, 2, 4]))}
+    ctx.feat('hier-lr:' + kind)
+    ctx.feat('hier-lr:smooth:' + (smooth[1]['krylov'] + (':postfilter' if 'postfilter' in smooth[1] else '') if smooth else 'none'))
+    ctx.feat(f'hier-lr:candidates-minus-blocksize={nd - bs}')
+    judge_lr(ctx, case, count=True)
+
+
+def judge_lr(ctx, case, count=False):
+    import pyamg
+    cplx, n, bs, nd = case['complex'], case['n'], case['bs'], case['nd']
+    A = to_sparse(uncj(case['A'], cplx).reshape(n, n), bs)
+    B, BH = uncj(case['B'], cplx).reshape(n, nd), uncj(case['BH'], cplx).reshape(n, nd)
+    smooth = case['smooth']
+    if smooth is not None:
+        smooth = (smooth[0], {k: (dict(v) if isinstance(v, dict) else v) for k, v in smooth[1].items()})
+    strength = (case['strength'][0], dict(case['strength'][1]))
+    what0 = (f'rootnode_solver(symmetry=nonsymmetric, BH != B, {nd} candidates, blocksize {bs}, smooth={case["smooth"]}, '
+             f'strength={case["strength"]}, aggregate={case["aggregate"]})')
+    np.random.seed(case['np_seed'])
+    try:
+        with quiet():
+            ml = pyamg.rootnode_solver(A, B=B.copy(), BH=BH.copy(), symmetry='nonsymmetric', strength=strength,
+                                       aggregate=case['aggregate'], smooth=smooth, improve_candidates=None,
+                                       max_coarse=case['max_coarse'], max_levels=5, keep=True)
+    except Exception as e:       # noqa: BLE001
+        ctx.feat('hier-lr:rejected:' + type(e).__name__)
+        return
+    for li, lvl in enumerate(ml.levels[:-1]):
+        nxt = ml.levels[li + 1]
+        if count:
+            ctx.case(key=_key('hier-lr', case['kind'], str(case['smooth']), str(case['strength']), case['aggregate'], li, case['A'],
+                              case['B'], case['BH']), nontrivial=lvl.AggOp.shape[0] > lvl.AggOp.shape[1],
+                     sample={'op': what0, 'level': li, 'n': lvl.A.shape[0]} if li == 1 else None)
+            ctx.feat(f'hier-lr:level{li}')
+        Cpts = np.asarray(lvl.Cpts)
+        if len(Cpts) != lvl.P.shape[1]:
+            ctx.feat('hier-lr:level-with-empty-aggregate-skipped')
+            continue
+        lbs = lvl.A.blocksize[0] if lvl.A.format == 'bsr' else 1
+        AggOp = lvl.AggOp.tocsr()
+        aggregated = np.diff(AggOp.indptr) > 0
+        sides = [('P (right candidates B)', lvl.P, np.asarray(lvl.B), np.asarray(nxt.B))]
+        if smooth is not None:
+            # smooth=None: the code takes R = T^H with T fitted to B, no operator for BH is built -> nothing claimed for BH
+            sides.append(('R^H (left candidates BH)', lvl.R.T.conjugate(), np.asarray(lvl.BH), np.asarray(nxt.BH)))
+        for name, Pm, Bf, Bc in sides:
+            what = f'{what0} level {li}: {name}'
+            Pd = sp.csr_array(Pm).toarray()
+            bad = rootnode_failures(Pd, Cpts, what)
+            if bad:
+                ctx.violation(bad, case)
+                return
+            if Bc.shape != Bf[Cpts].shape or not np.array_equal(Bc, Bf[Cpts]):
+                ctx.violation(f'{what}: coarse candidates are not the fine candidates at the root dofs', case)
+                return
+            ndl = Bf.shape[1]
+            st = status_from_mask(Bc, block_any(Pd != 0, lbs, lbs), lbs)
+            if 'ambiguous' in st:
+                ctx.near_skipped += 1
+                continue
+            E = np.abs(Pd @ Bc - Bf)
+            scale = (1 + np.abs(Pd).max()) * (np.abs(Bf).max() or 1.0)
+            for i in range(len(st)):
+                if st[i] == 'ok' and (aggregated[i] or ndl > lbs):
+                    e = E[i * lbs:(i + 1) * lbs].max()
+                    if e > 1e-6 * scale:
+                        ctx.violation(f'{what}: node {i} has a pattern that supports the constraints but (P B_c - B) = {e:.3e} there '
+                                      f'(scale {scale:.2e})', case)
+                        return
+
+
+def part_lr(ctx, N):
+    rng = np.random.default_rng([int(ctx.seed) & 0xffffffff, 0xC1011])
+    for t in range(N):
+        safe(ctx, lr_case, rng, t)
+
+
 def part_c(ctx, n_energy, n_root, n_hier):
     rng = ctx.np_rng
     for t in range(max(4, n_energy // 10)):
@@ -3205,9 +3326,11 @@ def run(ctx):
     items += part_e53h(ctx, ctx.scale(10, 150))
     run_items(ctx, items)
     part_c(ctx, ctx.scale(150, 7500), ctx.scale(160, 8000), ctx.scale(42, 2100))
+    part_lr(ctx, ctx.scale(40, 1000))
 
 
 def search(ctx):
+    part_lr(ctx, 150)
     part_c(ctx, 600, 400, 140)
     run_items(ctx, part_b(ctx, 300) + part_e24(ctx, 200) + part_e48(ctx, 200) + part_e53(ctx, 200) + part_e53h(ctx, 40))
 
@@ -3335,7 +3458,7 @@ def replay_imm_bsr(ctx, case):
 def replay(ctx, data):
     case = data['case']
     op = case.get('op')
-    print('replaying', op, {k: v for k, v in case.items() if k not in ('M', 'A', 'B', 'Cvals', 'C', 'sx', 'ax', 'Bf', 'UB', 'BtBinv')})
+    print('replaying', op, {k: v for k, v in case.items() if k not in ('M', 'A', 'B', 'BH', 'Cvals', 'C', 'sx', 'ax', 'Bf', 'UB', 'BtBinv')})
     if 'np_seed' in case:
         np.random.seed(case['np_seed'])
     if op in ('fit_candidates', 'fit_kernel'):
@@ -3346,6 +3469,8 @@ def replay(ctx, data):
         judge_rootnode(ctx, case)
     elif op == 'hierarchy':
         judge_hierarchy(ctx, case)
+    elif op == 'hierarchy_lr':
+        judge_lr(ctx, case)
     elif op in ('satisfy_constraints', 'satisfy_constraints_helper'):
         judge_projection_property(ctx, case, 'replay')
     elif op == 'smoother':
